@@ -25,6 +25,7 @@ import (
 //
 //	(sel RULE META QUERY COND (rows (PLACE k o a s t d)…))
 //	(union RULE META ((QUERY COND)…) (ALL…) UORDER ULIMIT (rows …))   (see c02union.go)
+//	(join JRULE META (j KIND WSIDE ONO) QUERY COND (rows …) (rrows …))  (see c02join.go)
 //
 //	QUERY  = (q DISTINCT (F…) GROUP (O…) LIMIT)
 //	F      = (star) | (col C ALIAS) | (agg KIND ARG DISTINCT ALIAS)     ALIAS = - | 100… (rendered x100…)
@@ -255,6 +256,8 @@ type c02Item struct {
 	konst    int64
 	alias    string
 	name     string
+	typ      byte   // type of the column / of the aggregate's argument
+	argName  string // the aggregate's argument as written
 }
 
 type c02Out struct {
@@ -271,14 +274,64 @@ func c02ColIndex(name string) int {
 	return -1
 }
 
-func c02ItemOfExpr(e ast.ExprNode) (c02Item, error) {
+// c02Scope: the columns a statement can name (one table, or the columns of the
+// two tables of a join one after the other). quals: the table qualifiers a
+// column answers to (nil: any, the single-table statements).
+type c02ScopeCol struct {
+	quals []string
+	name  string
+	typ   byte
+}
+
+type c02Scope []c02ScopeCol
+
+func c02TableScope(quals []string) c02Scope {
+	sc := make(c02Scope, len(c02Cols))
+	for i, c := range c02Cols {
+		sc[i] = c02ScopeCol{quals: quals, name: c, typ: c02ColType[i]}
+	}
+	return sc
+}
+
+var c02DefaultScope = c02TableScope(nil)
+
+func (c c02ScopeCol) answers(qual string) bool {
+	if qual == "" || c.quals == nil {
+		return true
+	}
+	for _, q := range c.quals {
+		if q == qual {
+			return true
+		}
+	}
+	return false
+}
+
+func (sc c02Scope) resolve(x *ast.ColumnNameExpr) (int, error) {
+	found := -1
+	for i, c := range sc {
+		if c.name != x.Name.Name.L || !c.answers(x.Name.Table.L) {
+			continue
+		}
+		if found >= 0 {
+			return -1, fmt.Errorf("column %s is ambiguous", x.Name.Name.O)
+		}
+		found = i
+	}
+	if found < 0 {
+		return -1, fmt.Errorf("unknown column %s", x.Name.String())
+	}
+	return found, nil
+}
+
+func c02ItemOfExpr(e ast.ExprNode, sc c02Scope) (c02Item, error) {
 	switch x := e.(type) {
 	case *ast.ColumnNameExpr:
-		i := c02ColIndex(x.Name.Name.L)
-		if i < 0 {
-			return c02Item{}, fmt.Errorf("unknown column %s", x.Name.Name.O)
+		i, err := sc.resolve(x)
+		if err != nil {
+			return c02Item{}, err
 		}
-		return c02Item{kind: 'c', col: i, name: x.Name.Name.O}, nil
+		return c02Item{kind: 'c', col: i, name: x.Name.Name.O, typ: sc[i].typ}, nil
 	case *ast.AggregateFuncExpr:
 		it := c02Item{kind: 'a', agg: strings.ToLower(x.F), distinct: x.Distinct}
 		switch it.agg {
@@ -291,11 +344,13 @@ func c02ItemOfExpr(e ast.ExprNode) (c02Item, error) {
 		}
 		switch a := x.Args[0].(type) {
 		case *ast.ColumnNameExpr:
-			i := c02ColIndex(a.Name.Name.L)
-			if i < 0 {
-				return c02Item{}, fmt.Errorf("unknown column %s", a.Name.Name.O)
+			i, err := sc.resolve(a)
+			if err != nil {
+				return c02Item{}, err
 			}
 			it.col = i
+			it.typ = sc[i].typ
+			it.argName = a.Name.String()
 		case *driver.ValueExpr: // COUNT(*) is COUNT(1) for this parser
 			if it.agg != "count" {
 				return c02Item{}, fmt.Errorf("%s of a constant", it.agg)
@@ -304,7 +359,7 @@ func c02ItemOfExpr(e ast.ExprNode) (c02Item, error) {
 		default:
 			return c02Item{}, fmt.Errorf("aggregate argument %T", a)
 		}
-		if it.agg == "sum" && c02ColType[it.col] == 's' {
+		if it.agg == "sum" && !it.star && it.typ == 's' {
 			return c02Item{}, fmt.Errorf("SUM of a string column")
 		}
 		var sb strings.Builder
@@ -315,7 +370,7 @@ func c02ItemOfExpr(e ast.ExprNode) (c02Item, error) {
 		if it.star {
 			sb.WriteString("1)")
 		} else {
-			sb.WriteString(c02Cols[it.col] + ")")
+			sb.WriteString(it.argName + ")")
 		}
 		it.name = sb.String()
 		return it, nil
@@ -337,7 +392,7 @@ func c02ItemOfExpr(e ast.ExprNode) (c02Item, error) {
 func c02ItemType(it c02Item) byte {
 	switch it.kind {
 	case 'c':
-		return c02ColType[it.col]
+		return it.typ
 	case 'a':
 		switch it.agg {
 		case "count":
@@ -345,7 +400,7 @@ func c02ItemType(it c02Item) byte {
 		case "sum":
 			return 'd'
 		}
-		return c02ColType[it.col]
+		return it.typ
 	}
 	return 'i'
 }
@@ -432,11 +487,21 @@ type c02Result struct {
 // collation, ONLY_FULL_GROUP_BY-clean statements). Sorting is stable in the
 // order of the stored rows.
 func c02EvalSelect(stmt *ast.SelectStmt, rows []c02Row, applyLimit bool) (*c02Result, error) {
+	return c02EvalSelectScope(stmt, rows, applyLimit, c02DefaultScope, 0)
+}
+
+// c02EvalSelectScope: `rows` are the rows of the FROM clause (of the table, or of
+// the join), `sc` their columns; WHERE is a condition on the columns k and o at
+// position wk, wk+1 of the rows.
+func c02EvalSelectScope(stmt *ast.SelectStmt, rows []c02Row, applyLimit bool, sc c02Scope, wk int) (*c02Result, error) {
 	// WHERE
 	var sel []c02Row
 	for _, r := range rows {
 		if stmt.Where != nil {
-			v, err := c05Eval(stmt.Where, c05Row{k: r[0].i, o: r[1].i})
+			if r[wk].kind != 'i' || r[wk+1].kind != 'i' {
+				return nil, fmt.Errorf("WHERE on a NULL column of an outer join")
+			}
+			v, err := c05Eval(stmt.Where, c05Row{k: r[wk].i, o: r[wk+1].i})
 			if err != nil {
 				return nil, err
 			}
@@ -453,12 +518,19 @@ func c02EvalSelect(stmt *ast.SelectStmt, rows []c02Row, applyLimit bool) (*c02Re
 	}
 	for _, f := range stmt.Fields.Fields {
 		if f.WildCard != nil {
-			for i, c := range c02Cols {
-				items = append(items, c02Item{kind: 'c', col: i, name: c})
+			n := 0
+			for i, c := range sc {
+				if c.answers(f.WildCard.Table.L) {
+					items = append(items, c02Item{kind: 'c', col: i, name: c.name, typ: c.typ})
+					n++
+				}
+			}
+			if n == 0 {
+				return nil, fmt.Errorf("unknown table %s", f.WildCard.Table.O)
 			}
 			continue
 		}
-		it, err := c02ItemOfExpr(f.Expr)
+		it, err := c02ItemOfExpr(f.Expr, sc)
 		if err != nil {
 			return nil, err
 		}
@@ -471,9 +543,11 @@ func c02EvalSelect(stmt *ast.SelectStmt, rows []c02Row, applyLimit bool) (*c02Re
 	resolve := func(e ast.ExprNode, orderBy bool) (c02Item, error) {
 		switch x := e.(type) {
 		case *ast.ColumnNameExpr:
-			for _, it := range items {
-				if it.alias != "" && it.alias == x.Name.Name.L {
-					return it, nil
+			if x.Name.Table.L == "" {
+				for _, it := range items {
+					if it.alias != "" && it.alias == x.Name.Name.L {
+						return it, nil
+					}
 				}
 			}
 		case *ast.PositionExpr:
@@ -484,7 +558,7 @@ func c02EvalSelect(stmt *ast.SelectStmt, rows []c02Row, applyLimit bool) (*c02Re
 				return items[x.N-1], nil
 			}
 		}
-		return c02ItemOfExpr(e)
+		return c02ItemOfExpr(e, sc)
 	}
 	aggregated := stmt.GroupBy != nil
 	for _, it := range items {
@@ -1033,6 +1107,8 @@ func execC02(in core.Sexp) string {
 		return c02Sel(in)
 	case "union":
 		return c02Union(in)
+	case "join":
+		return c02Join(in)
 	}
 	return "bad"
 }
@@ -1081,7 +1157,8 @@ func init() {
 		Rule: "SELECT statements from a grammar of the supported subset — projections (columns, aliases, *), SELECT DISTINCT, COUNT/SUM/MAX/MIN with and without DISTINCT, GROUP BY 1–2 columns (also by alias, also not selected), " +
 			"ORDER BY selected / hidden columns, aliases, aggregate functions (selected or not) and positions, ASC/DESC, LIMIT in its three spellings with and without OFFSET (counts 0…100), WHERE from C01's condition trees (so that statements are routed to zero, one or several sub-tables) — " +
 			"on a table (k, o, a, s, t, d) of 0–25 rows placed by the real rule (hash, mod, range, linked, date_year, mycat_mod, mycat_long) with NULLs, duplicates, the strings NULL + a+ +b and the empty string, negative numbers and DECIMAL(10,2) values, groups present on one sub-table only; " +
-			"plus a stream of statements a server rejects, and a stream of UNION [ALL] statements of 2–3 such SELECTs (plain, aggregated, grouped; aligned column types, now and then a mismatch) with ORDER BY name / position and LIMIT; " +
+			"plus a stream of statements a server rejects, a stream of UNION [ALL] statements of 2–3 such SELECTs (plain, aggregated, grouped; aligned column types, now and then a mismatch) with ORDER BY name / position and LIMIT, " +
+			"and a stream of such statements over a [LEFT] JOIN b ON a.k = b.k [AND a.o = b.o] of a range / hash table with its linked child table (either order) or with a global table (either order for inner joins), columns of both tables written alias.column or table.column, 0–12 rows per table with shared keys; " +
 			"the real plan is built and run over an in-memory executor that evaluates every rewritten per-table statement; non-trivial = rows returned",
 		Generate: genC02,
 		Exec:     execC02,
@@ -1090,6 +1167,8 @@ func init() {
 			return !strings.HasPrefix(out, "(ok")
 		},
 		Extra: c02Extra,
+		// what the real rule reported at generation time stays as it is while a failing input is shrunk
+		ShrinkKeep: []string{"meta", "lit"},
 		Assumptions: []string{
 			"each backend answers a rewritten per-table statement as MySQL does under a binary collation with ONLY_FULL_GROUP_BY-clean statements (the harness evaluator and the Lean reference semantics are cross-checked against each other on every case); ties of ORDER BY and rows cut by LIMIT inside a tie class are unspecified and compared as such",
 			"RowData.ParseText turns BIGINT into int64, DECIMAL into decimal.Decimal and character columns into string; uint64/float64/[]byte columns are not modelled",
